@@ -88,6 +88,14 @@ static void child(const std::string& line, const char* outpath) {
     static const int ST[] = {vsched::RANDOM, vsched::PCT, vsched::PCT, vsched::RUNFIRST};
     for (int stable = 0; stable < 2; ++stable) for (int mwmsa = 0; mwmsa < 2; ++mwmsa) for (int rep = 0; rep < 2; ++rep)
         one(out, keys, stable, mwmsa, rep == 0 ? TH[rnd(5)] : TH[rnd(9)], OS[rnd(3)], x, ST[rnd(4)], 2 + rnd(3));
+    // more runs than std::sort's insertion-sort threshold (16): the sample of multisequence_partition is sorted by an unstable algorithm beyond that, so ties between
+    // the runs' samples are only broken correctly if the code compares (value, run) pairs (round-3 seeded change, caught under one VERIF_SEED and missed under another
+    // as long as thread counts above 16 were drawn at random): every input of at least 17 elements gets both splitting strategies with 17+ threads, stable
+    if (keys.size() >= 17) {
+        static const int TH2[] = {17, 20, 33};
+        one(out, keys, true, 1, TH2[rnd(3)], OS[rnd(3)], x, ST[rnd(4)], 2 + rnd(3));
+        one(out, keys, true, 0, TH2[rnd(3)], OS[rnd(3)], x, ST[rnd(4)], 2 + rnd(3));
+    }
     out.flush();
     { vf::cov_flush(); _exit(0); }
 }
